@@ -14,6 +14,7 @@
  *          E          end of input; the grandchild returns into main() and takes the real exit path
  */
 #define _GNU_SOURCE
+#include "vh_limits.h"
 #include "src/common.h"
 #include "modules/iauth.h"
 #include <fcntl.h>
@@ -195,7 +196,7 @@ static const char *status_of(int st, char *tmp)
         return tmp;
     }
     if (WIFSIGNALED(st)) {
-        if (WTERMSIG(st) == SIGALRM) return "timeout";
+        if (VH_IS_TIMEOUT_SIGNAL(WTERMSIG(st))) return "timeout";
         sprintf(tmp, "sig%d", WTERMSIG(st));
         return tmp;
     }
@@ -220,7 +221,7 @@ static void run_candidate(int idx, struct ev *e, int flags)
         char fdname[16];
         dup2(out_m, 1);
         dup2(err_m, 2);
-        alarm((flags & F_LSAN) ? 30 : 10);
+        vh_alarm((flags & F_LSAN) ? 30 : 10);
         dis = apply_event(e, &rc);
         /* no fflush() here: what the daemon leaves in its stdio buffer has NOT reached the server - a verdict that is only
          * written out by a later event is late (the daemon's own iauth_send() flushes every line on the pinned tree) */
@@ -281,11 +282,11 @@ static void do_expand(int nh, int nc, int flags)
         int saved_out = dup(1), rc, bad = -1;
         dup2(devnull, 1);
         dup2(err_m, 2);
-        alarm(30);
+        vh_alarm(30);
         for (ii = 0; ii < nh; ++ii) {
             if (apply_event(&evs[ii], &rc)) { bad = ii; break; }
         }
-        alarm(0);
+        vh_alarm(0);
         {
             /* report the state reached by the replay, so that the orchestrator can assert determinism */
             int res_m = memfd_create("vh_hres", 0);
@@ -326,7 +327,7 @@ static void do_trace(int n, int flags)
     if (pid == 0) {
         char fdname[16];
         dup2(err_m, 2);
-        alarm((flags & F_LSAN) ? 40 : 20);
+        vh_alarm((flags & F_LSAN) ? 40 : 20);
         for (ii = 0; ii < n; ++ii) {
             int out_m = memfd_create("vh_tout", 0), res_m = memfd_create("vh_tres", 0);
             int rc, dis;
